@@ -70,6 +70,7 @@ impl OverlappingState {
 //@@ loop 1
         invariant
             aut_wf(aut), input.wf(), input.span.start <= state.at <= input.span.end,
+            aut.kind_s() is Standard,
             pre is Some ==> input.anchored is No && aut.has_pre() && *(pre->Some_0) == aut.pre_s(),
             aut.valid_s(sid),
             aut.dead_s(sid) || aut.depth_s(sid) <= state.at - input.span.start,
